@@ -29,9 +29,12 @@ SumLens(ss) == IF ss = <<>> THEN 0 ELSE Len(Head(ss).docs) + SumLens(Tail(ss))
 
 RowDoc(r) == [id |-> r[2], t |-> r[3], v |-> r[4], nb |-> r[7], tf |-> r[9]]
 \* stored id = fast id = the document found through its unique term; stored key = fast key
+\* (a document may have been given a second value for the sort field, v2: the column is then multi-valued and
+\* holds both in the order added; the sort key of the document is its FIRST value - Column::first - as in the
+\* writer's sort_order and the merger's comparison)
 RowAttached(r) ==
   /\ r[5] = <<r[2]>>
-  /\ r[6] = (IF r[4] = Missing THEN <<>> ELSE <<r[4]>>)
+  /\ r[6] = (IF r[4] = Missing THEN <<>> ELSE IF r[2] \in DOMAIN info /\ "v2" \in DOMAIN info[r[2]] THEN <<r[4], info[r[2]].v2>> ELSE <<r[4]>>)
   /\ r[8] = <<r[1]>>
 FastKey(r) == IF r[6] = <<>> THEN Missing ELSE r[6][1]
 
@@ -56,6 +59,7 @@ DocTerms(id, t, v, c) ==
   {<<"id:" \o ToString(id), <<>>>>, <<"t:" \o t, <<>>>>, <<"u:u" \o ToString(id), <<>>>>}
   \cup {<<"body:" \o c.toks[i], PosOf(c.toks, c.toks[i])>> : i \in 1..Len(c.toks)}
   \cup (IF ty \in {"i64", "str"} /\ v # Missing THEN {<<"k:" \o c.raw, <<>>>>} ELSE {})
+  \cup (IF ty \in {"i64", "str"} /\ v # Missing /\ "v2" \in DOMAIN c THEN {<<"k:" \o c.raw2, <<>>>>} ELSE {})
   \cup (IF "js" \in DOMAIN c THEN JsTerms(c.js) ELSE {})
 \* <<term, id, positions>> for every live document of the segment
 SegTermsExpected(s) ==
@@ -88,7 +92,8 @@ TAdd ==
   /\ Ev.ev = "add" /\ Ev.ok
   /\ Ev.opstamp >= lo /\ lo' = Ev.opstamp + 1
   /\ tpend' = OAdd(tpend, [id |-> Ev.id, t |-> Ev.t, v |-> Ev.v, nb |-> Ev.nb, tf |-> Ev.tf])
-  /\ LET c == IF "js" \in DOMAIN Ev THEN [toks |-> Ev.toks, raw |-> Ev.raw, js |-> Ev.js] ELSE [toks |-> Ev.toks, raw |-> Ev.raw]
+  /\ LET c0 == IF "js" \in DOMAIN Ev THEN [toks |-> Ev.toks, raw |-> Ev.raw, js |-> Ev.js] ELSE [toks |-> Ev.toks, raw |-> Ev.raw]
+         c == IF "v2" \in DOMAIN Ev THEN c0 @@ [v2 |-> Ev.v2, raw2 |-> Ev.raw2] ELSE c0
      IN info' = [x \in (DOMAIN info) \cup {Ev.id} |-> IF x = Ev.id THEN c ELSE info[x]]
   /\ UNCHANGED <<tcommd, metaop, ord, ty>>
 
